@@ -79,9 +79,9 @@ type Runner struct {
 	writeFault bool // the tty will reject part of the next frame
 	Faulted    bool // the observation point just returned is a Show whose frame the tty cut short
 	Corrupted  bool // emulator contents scrambled: comparisons suspended until a full redraw
-	Fini      bool
-	Suspended bool
-	writes    int
+	Fini       bool
+	Suspended  bool
+	writes     int
 	// bookkeeping for full repaints
 	FullNext bool
 	// the terminal changed size without telling the library since the last Show
@@ -405,6 +405,26 @@ func (r *Runner) Apply(op Op) (Point, error) {
 		}
 		r.Shadow.MarkShown(true)
 		return Resized, nil
+	case "settitle":
+		s.SetTitle(fmt.Sprintf("title-%d", op.N))
+	case "suspres":
+		// another program has the terminal for a while; what the screen shows
+		// afterwards is only repaired by the next full redraw
+		if err := s.Suspend(); err != nil {
+			return None, fmt.Errorf("harness: Suspend: %v", err)
+		}
+		if err := s.Resume(); err != nil {
+			return None, fmt.Errorf("harness: Resume: %v", err)
+		}
+		r.Drain()
+		r.Corrupted = true
+		// Suspend hands the terminal over and forgets the logical contents
+		// (the cell buffer is resized to nothing and back): the application
+		// draws again after Resume
+		w, h := r.Shadow.W, r.Shadow.H
+		r.Shadow.Resize(0, 0)
+		r.Shadow.Resize(w, h)
+		r.Shadow.InvalidateSnap()
 	case "writefault":
 		// the next frame (Show) is only partly accepted by the tty
 		r.Tty.FailNextWrite(op.N)
